@@ -182,7 +182,9 @@ fn run_mem(router: &v::VRouter, segs: Vec<Vec<u8>>) -> (Vec<u8>, &'static str, b
 static EVENTS: Mutex<Vec<(&'static str, usize, usize)>> = Mutex::new(Vec::new());
 fn emit(k: &'static str, a: usize, b: usize) { EVENTS.lock().unwrap().push((k, a, b)) }
 
-fn run_tcp(router: &v::VRouter, segs: Vec<Vec<u8>>, wait_after: Vec<bool>) -> (Vec<u8>, &'static str, Vec<Value>) {
+/// `wait_after[n]`: 0, or -- when segment n ends exactly where a request ends -- the number of requests that have ended by then: that many
+/// responses are awaited before the next segment is written (several requests may end inside one segment)
+fn run_tcp(router: &v::VRouter, segs: Vec<Vec<u8>>, wait_after: Vec<usize>) -> (Vec<u8>, &'static str, Vec<Value>) {
     use tokio::io::{AsyncReadExt, AsyncWriteExt};
     EVENTS.lock().unwrap().clear();
     v::install_emit(emit);
@@ -200,9 +202,9 @@ fn run_tcp(router: &v::VRouter, segs: Vec<Vec<u8>>, wait_after: Vec<bool>) -> (V
         'outer: for (n, sg) in segs.iter().enumerate() {
             if c.write_all(sg).await.is_err() { end = "write-failed"; break }
             let _ = c.flush().await;
-            if wait_after[n] {
-                // a whole request has been delivered and the next one starts in another segment: wait for its response
-                expected += 1;
+            if wait_after[n] > 0 {
+                // whole requests have been delivered and the next one starts in another segment: wait for their responses
+                expected = wait_after[n];
                 let deadline = tokio::time::Instant::now() + std::time::Duration::from_millis(5000);
                 while complete_responses(&out) < expected {
                     match tokio::time::timeout_at(deadline, c.read(&mut buf)).await {
@@ -253,7 +255,7 @@ pub fn run(scn: &Value) -> Value {
     let (out, end, unread) = run_mem(&router, segs.clone());
     let mem = json!({"resp": classify(&out, &concs, &fresh), "end": end, "unread": unread});
     // tcp: wait for a response after a segment that ends exactly at the end of a request
-    let mut acc = 0; let wait_after: Vec<bool> = segs.iter().map(|sg| { acc += sg.len(); ends.contains(&acc) }).collect();
+    let mut acc = 0; let wait_after: Vec<usize> = segs.iter().map(|sg| { acc += sg.len(); if ends.contains(&acc) { ends.iter().filter(|e| **e <= acc).count() } else { 0 } }).collect();
     let (out2, end2, evs) = run_tcp(&router, segs.clone(), wait_after);
     let tcp = json!({"resp": classify(&out2, &concs, &fresh_sock), "end": end2, "unread": false});
     json!({"kind": "conn", "mem": mem, "tcp": tcp, "events": evs, "nsegs": segs.len() as i64})
